@@ -406,7 +406,7 @@ def fam_K(spec, tier, seed, scratch, stats):
 
 
 def shards(tier, seed):
-    t = c01.shards('quick', seed)
+    t = [s for s in c01.shards('quick', seed) if s[0] != 'F9']     # F9 (several CLI paths) has its own case format
     if tier == 'quick':
         def keep(x):
             if x[0] == 'F1':
